@@ -1,6 +1,8 @@
 package main
 
 import (
+	"encoding/json"
+	"net"
 	"bytes"
 	"fmt"
 	"strings"
@@ -43,6 +45,16 @@ type encodable interface {
 const KBad Kind = -1
 
 func toGoU(n *Node, r *Rng) interface{} {
+	switch n.X {
+	case "p":
+		return net.IP(append([]byte{}, n.S...))
+	case "j":
+		return json.RawMessage(append([]byte{}, n.S...))
+	case "d":
+		return time.Duration(n.I)
+	case "m":
+		return map[string]int{"a": int(n.I)}
+	}
 	if n.K == KBad {
 		switch n.W % 3 {
 		case 0:
@@ -149,6 +161,12 @@ func orderNode(in, out *Node) *Node {
 }
 
 func tokVal(n *Node) string {
+	switch n.X {
+	case "p", "j":
+		return n.X + hexRaw(n.S)
+	case "d", "m":
+		return fmt.Sprintf("%s%d", n.X, n.I)
+	}
 	switch n.K {
 	case KBad:
 		return "U"
